@@ -14,6 +14,27 @@ RULE_TAGS = ["check", "double-check", "checkmate", "stalemate", "single-legal-mo
 LIKE_TAGS = ["like-pieces-diff-file-rank", "like-pieces-same-file", "like-pieces-same-rank"]
 
 
+def sparse_seed_records(max_men=10):
+    out = []
+    for s in seed_records(load_seeds(), both_colours=True):
+        if sum(1 for x in s["b"] if x) <= max_men:
+            out.append(s)
+    return out
+
+
+def text_oracle(ctx, prop, quick, game_sample=0):
+    """oracle with SAN / UCI / effects: the whole catalogue to ply 2; thorough adds ply 3 from the sparse seeds"""
+    seeds = seed_records(seeds_for(ctx.tier), both_colours=True)
+    summ = engines.oracle_replay(ctx, seeds, 2, [prop], text=True, label="positions", game_sample=game_sample)
+    engines.absorb_replay(ctx, summ)
+    if not quick:
+        s3 = engines.oracle_replay(ctx, sparse_seed_records(), 3, [prop], text=True, label="sparse3", game_sample=game_sample)
+        engines.absorb_replay(ctx, s3)
+        for k, v in s3["tags"].items():
+            summ["tags"][k] = summ["tags"].get(k, 0) + v
+    return summ
+
+
 def seeds_for(tier, names=None):
     s = load_seeds()
     if names:
@@ -75,9 +96,7 @@ def c03(ctx):
 
 def c06(ctx):
     quick = ctx.tier == "quick"
-    seeds = seed_records(seeds_for(ctx.tier), both_colours=True)
-    summ = engines.oracle_replay(ctx, seeds, 2 if quick else 3, ["C06"], text=True, label="positions", game_sample=400 if quick else 100)
-    engines.absorb_replay(ctx, summ)
+    summ = text_oracle(ctx, "C06", quick, game_sample=400 if quick else 100)
     ctx.require_tags(summ["tags"], ["check", "double-check", "checkmate", "stalemate", "ep-pinned", "promotion-in-check"])
     ctx.extra["tags"] = {t: summ["tags"].get(t, 0) for t in RULE_TAGS}
     b2_games(ctx, ["verdict"], 30 if quick else 500, 150, 600 if quick else 20000, heavy=2, shards=4 if quick else 8, max_extra=6)
@@ -90,9 +109,7 @@ def c06(ctx):
 
 def c13(ctx):
     quick = ctx.tier == "quick"
-    seeds = seed_records(seeds_for(ctx.tier), both_colours=True)
-    summ = engines.oracle_replay(ctx, seeds, 2 if quick else 3, ["C13"], text=True, label="positions")
-    engines.absorb_replay(ctx, summ)
+    summ = text_oracle(ctx, "C13", quick)
     ctx.require_tags(summ["tags"], LIKE_TAGS + ["O-O:w", "O-O-O:b", "promoxN:w", "ep:b", "checkmate", "check"])
     ctx.extra["tags"] = {t: summ["tags"].get(t, 0) for t in LIKE_TAGS}
     b2_games(ctx, ["san"], 30 if quick else 500, 150, 400 if quick else 10000, heavy=2, shards=4 if quick else 8, max_extra=8)
@@ -103,9 +120,7 @@ def c13(ctx):
 
 def c19(ctx):
     quick = ctx.tier == "quick"
-    seeds = seed_records(seeds_for(ctx.tier), both_colours=True)
-    summ = engines.oracle_replay(ctx, seeds, 2 if quick else 3, ["C19"], text=True, label="positions")
-    engines.absorb_replay(ctx, summ)
+    summ = text_oracle(ctx, "C19", quick)
     ctx.require_tags(summ["tags"], ["ep:w", "ep:b", "O-O:w", "O-O:b", "O-O-O:w", "O-O-O:b"] + ["promo%s%s:%s" % (x, k, c) for x in ("", "x") for k in "QRBN" for c in "wb"])
     b2_games(ctx, ["uci"], 30 if quick else 500, 150, 1000 if quick else 20000, shards=4 if quick else 8)
     ctx.sample({"binding": "B1", "special_moves": {t: summ["tags"].get(t, 0) for t in ["ep:w", "ep:b", "O-O:w", "O-O-O:b", "promoxN:b"]}})
